@@ -56,6 +56,9 @@ TEXT = {
  "C09": ("deterministic simulation with honest and byzantine senders around the read limit; oracle: harness-computed wire/decompressed sizes, pool-hook buffer bound",
          "Seeded search over limits x sizes x positions x compressions x protocols x directions, plus lying length prefixes, flagged oversized envelopes, false Content-Lengths and decompression bombs. The buffering bound is measured on pooled buffers through the verif hook (not RSS). The protocol's own end-of-stream block is not a message: limits smaller than it are only used where no such block exists.",
          "5 C09"),
+ "C13": ("deterministic simulation of concurrent calls over shared clients/handlers with poisoned deterministic pools, plus the same world under the race detector with happens-before-free scheduling gates",
+         "Seeded search over interleavings (the scheduler decides every transport operation and library yield point). The race detector only sees accesses a run executes, so 'no unsynchronised access' is decided for the operations the workloads reach. Race-build schedules are not settled against same-instant timers (DESIGN 3.2), so a race report is confirmed by re-running its seed.",
+         "5 C13"),
 }
 
 hooks_commits = subprocess.run(["git", "-C", "/repo", "log", "--format=%H", "--grep=^verif:"], capture_output=True, text=True).stdout.split()
